@@ -4,7 +4,7 @@
    token stream from the real implementation. *)
 From Coq Require Import String Ascii.
 From Radius Require Import Base.Bytes Base.Guard Base.Res Gen.Consts
-  Model.Attrs Model.Packet Model.Passwords Model.Codecs Model.Client Model.Exchange Model.Dict Model.DictMerge Model.MSCHAP Spec.C19 Model.Vendor Model.Helpers Model.Dispatch Spec.C06 Model.Shutdown Model.ShutdownSched Spec.C05 Spec.C10 Spec.C09 Spec.C01 Spec.C03 Spec.C04 Spec.C11.
+  Model.Mem Model.Attrs Model.Packet Model.Passwords Model.Codecs Model.Client Model.Exchange Model.Dict Model.DictMerge Model.MSCHAP Spec.C19 Model.Vendor Model.Helpers Model.Dispatch Spec.C06 Model.Shutdown Model.ShutdownSched Spec.C05 Spec.C10 Spec.C09 Spec.C01 Spec.C03 Spec.C04 Spec.C11.
 From Radius Require Import Crypto.MD5 Crypto.SHA1 Crypto.MD4 Crypto.DES Crypto.UTF16.
 Open Scope list_scope.
 Open Scope nat_scope.
@@ -490,6 +490,57 @@ Definition dispatch_helper (name : bytes) (bs : list bytes) (zs : list Z) : opti
     end
   else None.
 
+(* ---- C13: the readers on the memory model ----
+   script codes: 0 Lookup, 1 Gets, 2 overwrite every byte of the values returned last *)
+Definition scribble (h : Mem.heap) (s : Mem.slice) : Mem.heap :=
+  fold_left (fun hh i => wr hh s i (N.lxor (nth i (rd hh s) 0%N) 165)) (seq 0 (s_len s)) h.
+Definition scribble_val (h : Mem.heap) (v : mval) : Mem.heap := scribble (scribble h (v_b v)) (v_mask v).
+Fixpoint run_mem (legacy : bool) (d : hdesc) (h : Mem.heap) (m : mpacket) (q : packet) (last : list mval) (script : list Z) : list tok :=
+  match script with
+  | [] => []
+  | o :: rest =>
+    if (o =? 0)%Z then
+      let '(h', r) := m_lookup md5 legacy d h m q in
+      (match r with
+       | Ok v => TI 0 :: t_tv d (val_view h' v)
+       | Err e => [TI 1; TI (if (e =? E_noattr)%N then 40 else 8)]
+       | _ => [TI 2]
+       end) ++ t_attrs (pattrs (pview h' m)) ++ run_mem legacy d h' m q (match r with Ok v => [v] | _ => [] end) rest
+    else if (o =? 1)%Z then
+      let '(h', r) := m_gets md5 legacy d h m q in
+      (match r with
+       | Ok vs => TI 0 :: TI (zlen vs) :: flat_map (fun v => t_tv d (val_view h' v)) vs
+       | Err _ => [TI 1]
+       | _ => [TI 2]
+       end) ++ t_attrs (pattrs (pview h' m)) ++ run_mem legacy d h' m q (match r with Ok vs => vs | _ => [] end) rest
+    else
+      let h' := fold_left scribble_val last h in
+      TI 9 :: t_attrs (pattrs (pview h' m)) ++ run_mem legacy d h' m q [] rest
+  end.
+
+Fixpoint place (vals : list bytes) (types : list Z) (addr : nat) : list (Z * Mem.slice) :=
+  match vals, types with
+  | v :: vs, t :: ts => (t, mkslice addr 0 (length v)) :: place vs ts (S addr)
+  | _, _ => []
+  end.
+
+Definition dispatch_mem (name : bytes) (bs : list bytes) (zs : list Z) : option (list tok) :=
+  if name_is name "m.mem" || name_is name "s.mem" then
+    match zs, bs with
+    | ht :: k :: nb :: tg :: enc :: sv :: sz :: vv :: vid :: lg :: c :: idn :: n :: zs', au :: sec :: qau :: bs' =>
+      let d := mkhdesc ht (kind_of k nb) (tg =? 1)%Z enc (if (sv =? 1)%Z then Some sz else None)
+                       (if (vv =? 1)%Z then Some (Z.to_N vid) else None) in
+      let nn := Z.to_nat n in
+      let vals := firstn nn bs' in
+      let types := firstn nn zs' in
+      let h : Mem.heap := sec :: vals in
+      let m := mkmp c (Z.to_N idn) au (mkslice 0 0 (length sec)) (place vals types 1) in
+      let q := mkpacket 1 (Z.to_N idn) qau sec [] in
+      Some (run_mem (lg =? 1)%Z d h m q [] (skipn nn zs'))
+    | _, _ => Some [TI (-93)]
+    end
+  else None.
+
 Definition dispatch (name : bytes) (bs : list bytes) (zs : list Z) : list tok :=
   if name_is name "m.attrs_run" then run_attrs false bs zs
   else if name_is name "s.attrs_run" then run_attrs true bs zs
@@ -505,7 +556,8 @@ Definition dispatch (name : bytes) (bs : list bytes) (zs : list Z) : list tok :=
   match dispatch_merge name bs zs with Some t => t | None =>
   match dispatch_mschap name bs zs with Some t => t | None =>
   match dispatch_helper name bs zs with Some t => t | None =>
-  [TI (-97)] end end end end end end end end end end end.
+  match dispatch_mem name bs zs with Some t => t | None =>
+  [TI (-97)] end end end end end end end end end end end end.
 
 Require Extraction.
 Require Import ExtrOcamlBasic.
